@@ -170,7 +170,8 @@ def r1_remap(ctx):
 def r2_reachability(ctx):
     au = A(0)
     for cfg in ('dev', 'rel'):
-        log = calllog.run(ctx, cfg, AUT + 'remove_unreachable_states')
+        # push_all(iter) is `for x in iter { push(x) }`: its loop is the edge loop when the function is written that way
+        log = calllog.run(ctx, cfg, AUT + 'remove_unreachable_states', inline=('BfsQueue::<T>::push_all',))
         ip, fn = log.ip, log.fn
         outer = [h for h in log.heads if any(it.named('BfsQueue::<T>::pop') for it in log.of_head(h))]
         inner = [h for h in log.heads if h not in outer]
@@ -181,12 +182,19 @@ def r2_reachability(ctx):
             pops = [c for c in it.state.calls if c[0].endswith('BfsQueue::<T>::pop')]
             nxt = [c for c in it.calls if 'EdgeIterator' in c[0] and c[0].endswith('::next')]
             pushes = it.named('BfsQueue::<T>::push')
-            ok = len(pops) == 1 and len(nxt) == 1 and len(pushes) == 1
+            ok = len(pops) == 1 and len(pushes) == 1
             if ok:
                 i = calllog.payload(calllog.call_term(pops[0]))
                 edges = ('call', AUT + 'edges', (au, ('call', AUT + 'state', (au, i))))
-                item = calllog.payload(calllog.call_term(nxt[0]))
-                ok = T.show(edges) in T.show(nxt[0][1][0]) and pushes[0][1][1] == T.fld(('fld', item, '1'), 'id', 'usize')
+                # the edge of this iteration: what the edge iterator of the popped state yielded (its next() stepped by
+                # hand, or an element of the stream of its items)
+                pv = pushes[0][1][1]
+                item = pv[1][1] if (pv[0] == 'fld' and pv[2] == 'id' and pv[1][0] == 'fld' and pv[1][2] == '1') else None
+                ok = item is not None
+                if ok and len(nxt) == 1:
+                    ok = item == calllog.payload(calllog.call_term(nxt[0])) and T.show(edges) in T.show(nxt[0][1][0])
+                elif ok:
+                    ok = item[0] == 'elem' and item[1] == ('items', edges) and any(item[2] == c_ for c_, _ in counters(ip, it))
             ctx.obligation(ok)
             (ctx.ok if ok else ctx.violation)('C14.R2', 'C14.R2/remove_unreachable_states/pushes-id-of-each-edge-target-of-popped-state', fn.path, fn.site(), {'calls': [T.show(calllog.call_term(c))[:200] for c in it.calls]}, cfg)
         for it in log.of_head(outer[0]):
